@@ -20,6 +20,7 @@ import ZlModel.Names
 import ZlModel.Thresholds
 import ZlModel.Der
 import ZlModel.JsonString
+import ZlModel.RegSeq
 open Zl Zl.Proto
 
 namespace Zl.Driver
@@ -443,6 +444,35 @@ def opJs (kind : String) (fields : List String) : String :=
   | "js-sanitize", [h] => hexOfBytes (JsonString.sanitize ((unhexBytes h).getD []))
   | _, _ => "bad-op"
 
+/-! ### registries as objects (C08 / C11 / C12 / C13 / C14) -/
+
+def parseRegSeqOp (s : String) : Option RegSeq.Op :=
+  match s.splitOn "|" with
+  | ["N"] => some .newReg
+  | ["R", h, kind, hname, src] =>
+    let k : Kind := if kind == "crl" then .crl else if kind == "ocsp" then .ocsp else .cert
+    some (.reg (natOf h) k ((unhex hname).getD "") src)
+  | ["F", h, nf, inc, exc, isrc, xsrc] =>
+    let nameFilter : Option (String → Bool) :=
+      if nf == "none" then none else
+      let set := unhexList (dropS nf 4)
+      some (fun n => set.contains n)
+    some (.filter (natOf h) { nameFilter := nameFilter, includeNames := unhexList inc, excludeNames := unhexList exc,
+                              includeSources := unhexList isrc, excludeSources := unhexList xsrc })
+  | ["S", h, tag] => some (.setCfg (natOf h) tag)
+  | ["C", h] => some (.getCfg (natOf h))
+  | ["M", h] => some (.names (natOf h))
+  | ["U", h] => some (.sources (natOf h))
+  | ["L", h] => some (.listing (natOf h))
+  | _ => none
+
+def opRegSeq (fields : List String) : String :=
+  match fields with
+  | [seq] =>
+    let ops := (seq.splitOn ";").filterMap parseRegSeqOp
+    ";".intercalate (RegSeq.run {} ops)
+  | _ => "bad-op"
+
 def step (line : String) : String :=
   match line.splitOn "\t" with
   | "fw" :: rest => opFw rest
@@ -476,6 +506,7 @@ def step (line : String) : String :=
   | "caclass" :: a :: b :: [] =>
     let v : CAView := ⟨a == "1", b == "1"⟩
     b2s (isRootCA v) ++ b2s (isSubCA v) ++ b2s (isSubscriberCert v)
+  | "regseq" :: rest => opRegSeq rest
   | "names" :: rest => opNames rest
   | "thr-val" :: rest => opThr "thr-val" rest
   | "thr-rc" :: rest => opThr "thr-rc" rest
